@@ -14,6 +14,7 @@ size_t __sanitizer_get_allocated_size(const volatile void *p);
 }
 
 #include <cstring>
+#include <fstream>
 #include <functional>
 
 using namespace pbt;
@@ -24,6 +25,7 @@ namespace {
 decoder_t *gDec[6] = {nullptr, nullptr, nullptr, nullptr, nullptr, nullptr}; // [5]: cmn=batch
 int gFrate[6] = {100, 100, 100, 50, 105, 100}; // 105 does not divide the sample rate: the frame shift is rounded, the times are not
 bool c_probeKnown = false; // set per case: assert listed known classes on a small fraction of cases
+bool c_posteriorTwice = false; // C12: call lattice_posterior a second time before judging
 
 struct Case {
   int decIdx = 0;
@@ -461,6 +463,11 @@ Verdict oracleC12(decoder_t *d, lattice_t *dag, bool final, Ctx &ctx) {
   }
   // --- posteriors ---
   int32 post = lattice_posterior(dag, ascale);
+  // asking again (nothing else in between) must leave a lattice that still satisfies every clause below
+  if (c_posteriorTwice) {
+    post = lattice_posterior(dag, ascale);
+    ctx.label("posterior-computed-twice");
+  }
   {
     size_t nl = L.links.size();
     std::vector<long double> t(nl), a(nl), b(nl), ea(nl, 0), eb(nl, 0);
@@ -950,6 +957,7 @@ Verdict runCase(Choices &c, Ctx &ctx, Which which) {
   // C04's cross-pass clause is judged on the compallsen decoder only
   Case k = genCase(c, which == W_C01 ? 25 : which == W_C03 ? 15 : 20, which == W_C14, which == W_C04 ? 55 : 30);
   c_probeKnown = c.coin(4);
+  c_posteriorTwice = which == W_C12 && c.coin(40);
   ctx.describe(caseDesc(k));
   decoder_t *d = gDec[k.decIdx];
   applySearchCfg(d, k.sc);
@@ -1410,6 +1418,7 @@ Verdict propC16(Choices &c, Ctx &ctx) {
   sc.beam = sc.pbeam = sc.wbeam = 0;
   applySearchCfg(d, sc);
   DictModel m = snapshotDict(d);
+  const size_t snapshotCount = m.words.size();
   static const char *ONE[] = {"B", "D", "F", "G", "K", "L", "M", "N", "P", "R", "S", "T", "V", "W", "Y", "Z"};
   static const char *PH[] = {"AA", "AE", "AH", "AO", "AW", "AY", "B", "CH", "D", "DH", "EH", "ER", "EY", "F", "G", "HH", "IH", "IY", "JH", "K", "L", "M", "N", "NG", "OW", "OY", "P", "R", "S", "SH", "T", "TH", "UH", "UW", "V", "W", "Y", "Z", "ZH"};
   int nops = (int)c.range(1, 22);
@@ -1578,6 +1587,64 @@ Verdict propC16(Choices &c, Ctx &ctx) {
   ctx.describe(d_.str());
   Verdict v = compareDict(d, m, {}, true, "at the end of the history");
   if (!v.ok) return v;
+  // ---- a word added at run time is modelled exactly like the same entry read from a dictionary file:
+  // force-align a sentence around it on this decoder and on one that loaded (bundled dictionary + the
+  // accepted additions) from a file, and compare words, phones, senone sequences, times and scores
+  {
+    size_t base0 = snapshotCount;
+    bool plain = m.words.size() > base0 && m.words.size() - base0 <= 40;
+    for (size_t w = base0; w < m.words.size() && plain; ++w) {
+      const std::string &sp = m.words[w].word;
+      size_t i = 0;
+      while (i < sp.size() && (islower((unsigned char)sp[i]) || isdigit((unsigned char)sp[i]))) ++i;
+      bool ok = i > 0 && (i == sp.size() || (i + 3 == sp.size() && sp[i] == '(' && isdigit((unsigned char)sp[i + 1]) && sp[i + 2] == ')'));
+      plain = plain && ok;
+    }
+    if (plain && !added.empty() && c.coin(45)) {
+      std::string path = tmpDir() + "/c16_" + std::to_string((long)getpid()) + ".dic";
+      {
+        std::ifstream in(verifDir() + "/data/mini.dic");
+        std::ofstream out(path);
+        out << in.rdbuf();
+        for (size_t w = base0; w < m.words.size(); ++w) {
+          out << m.words[w].word;
+          for (auto &ph : m.words[w].phones) out << " " << ph;
+          out << "\n";
+        }
+      }
+      DecCfg k;
+      k.dict = path;
+      decoder_t *ref = makeDecoder(k);
+      unlink(path.c_str());
+      PBT_CHECK(ref != NULL, "dictionary-file-refused", "a dictionary file holding the bundled entries plus the accepted additions could not be loaded");
+      applySearchCfg(ref, sc);
+      const std::string &w = added[(size_t)c.range(0, (int64_t)added.size() - 1)];
+      const auto &V = vocab();
+      std::string text = V[(size_t)c.range(0, (int64_t)V.size() - 1)] + " " + w + " " + V[(size_t)c.range(0, (int64_t)V.size() - 1)];
+      size_t N = (size_t)c.range(16000, 30000);
+      std::string ad;
+      std::vector<int16_t> au = audio::recipe(c, N, ad, true, 20);
+      d_ << " compare-with-file-loaded('" << text << "', " << ad << ")";
+      ctx.describe(d_.str());
+      auto run = [&](decoder_t *x) -> std::string {
+        if (decoder_set_align_text(x, text.c_str()) != 0) return "align text refused";
+        if (decoder_start_utt(x) != 0) return "start_utt failed";
+        int16_t *blk = (int16_t *)malloc(N * 2);
+        memcpy(blk, au.data(), N * 2);
+        int r = decoder_process_int16(x, blk, N, 0, 1);
+        free(blk);
+        if (r < 0) return "process failed";
+        decoder_end_utt(x);
+        Obs o = observe(x);
+        alignment_t *al = decoder_alignment(x);
+        return o.str() + " alignment=" + (al ? alignStr(readAlignment(al)) : std::string("NULL"));
+      };
+      std::string a = run(d), b = run(ref);
+      decoder_free(ref);
+      PBT_CHECK(a == b, "added-word-modelled-differently-from-file-entry", "force-aligning '" << text << "':\n added at run time : " << a << "\n read from a file   : " << b);
+      ctx.label(a.find("alignment=NULL") == std::string::npos ? "differential:file-loaded(aligned)" : "differential:file-loaded(no alignment)");
+    }
+  }
   ctx.labelIf(sawRejected, "history:has-rejected-addition");
   ctx.labelIf(sawUse, "history:new-word-used");
   ctx.nontrivial = sawAccepted && sawRejected;
